@@ -12,6 +12,10 @@ CHECKS = {
          "Every message derivable from the token grammar (header-count variants x 1-3 items x per-field menus: ~35 record types with every internal length field short/long, rdlen exact/-1/+1/0/0xFFFF, names with pointers to every landmark incl. self/forward/chained/into-rdata) plus every raw body over 9 symbols to length 5 (quick) / 7 (thorough) and every truncation of short messages is run through header, all section/record iterators, AllRecordData and AllOptData parsing, canonical_name, is_answer, copy_records, dig/zone display, Label::iter_slice from every offset and the XFR interpreter; oracle: no panic, terminates (watchdog), identical transcript on second traversal, returned names equal an independent decompression and are usable.",
          "Octet values outside the menus and messages with more than three items are not covered; out-of-bounds reads behind unsafe are only caught if they panic or change the transcript.",
          "gramx", "DESIGN.md §3 C01"),
+ "C02": ("model_checking", "exhaustive enumeration of builder operation sequences on the real builders per target x compressor configuration, independent wire reader as oracle after every step",
+         "Every operation sequence to depth 5 (quick) / 6 (thorough) over two alphabets (general: 2 questions, 9 records incl. shared suffixes, case variants, SRV, TXT, 255-octet names, OPT, direct jumps between all four sections, rewind, push-limit set at/above the current length and cleared; pad-focused: 16000/48000-octet records crossing 0x3FFF and 0xFFFF) on 16 target x compressor configurations (Vec, BytesMut, Array<100/600>, StreamTarget x none/Static/Tree/Hash). No state merging (compressor tables depend on history). After every step an independent reader checks header counts == successful pushes, items/order/sections, RDATA with names decompressed independently, pointers backwards and < 0x4000, stream length prefix, failed push leaves octets unchanged, and the library's own reader agrees.",
+         "Whether a push is refused (space or limit) is taken from the implementation; messages beyond 65535 octets on unbounded targets are outside the property's domain and not explored.",
+         "seqx", "DESIGN.md §3 C02"),
  "C03": ("model_checking", "explicit-state BFS to fixpoint over the abstract state graph of the real NameBuilder + grammar-exhaustive constructor/slicing enumeration",
          "Part 1 explores ALL reachable abstract builder states (len, open-label length) - a complete fixpoint, not a depth bound - executing every operation of the menu on the real NameBuilder in every state (twice, with different fill octets) against an abstract RFC-limit model and an independent wire validator. Part 2 enumerates every presentation string over 11 symbols to length 6/7, boundary-length families, every wire string from a label-length menu, raw octet strings, every index pair for slice/range/split/truncate, and chain() over a length menu, against an independent validator and text/wire round trips.",
          "Builder control flow depends only on (len, open-label length) (checked per transition); strings with unescaped space/quote/'['/non-ASCII are only required to yield valid names.",
